@@ -57,6 +57,8 @@ fn check_value0<T: Flt>(bad: &mut Vec<String>, what: &str, got: T, terms: &[T], 
 fn run_type<T: Flt>(cfg: &Cfg, rep: &mut Report, rng: &mut Lcg) {
     // values: zeros, dyadic probabilities, numbers above 1, NaN
     let al: Vec<f64> = vec![0.0, 0.125, 0.25, 0.5, 1.0, 3.0, 0.1];
+    // sampled cases also draw very small / very large finite values
+    let al_wide: Vec<f64> = vec![0.0, 0.125, 0.25, 0.5, 1.0, 3.0, 0.1, 1e-300, 1e-30, 1e30, 1e200];
     let shapes: Vec<Vec<usize>> = if cfg.thorough { vec![vec![1], vec![2], vec![3], vec![5], vec![2, 2], vec![2, 3], vec![3, 1, 2], vec![2, 2, 2]] } else { vec![vec![1], vec![2], vec![3], vec![2, 2], vec![2, 1, 2]] };
     for shape in &shapes {
         let size: usize = shape.iter().product();
@@ -64,8 +66,9 @@ fn run_type<T: Flt>(cfg: &Cfg, rep: &mut Report, rng: &mut Lcg) {
         let ncases = if exhaustive { al.len().pow(2 * size as u32) } else if cfg.thorough { 6000 } else { 80 };
         for k in 0..ncases {
             let (cp, cq) = if exhaustive { (k % al.len().pow(size as u32), k / al.len().pow(size as u32)) } else { (rng.next() as usize, rng.next() as usize) };
-            let mut pv: Vec<f64> = { let mut c = cp; (0..size).map(|_| { let v = al[c % al.len()]; c /= al.len(); v }).collect() };
-            let mut qv: Vec<f64> = { let mut c = cq; (0..size).map(|_| { let v = al[c % al.len()]; c /= al.len(); v }).collect() };
+            let alx: &Vec<f64> = if !exhaustive && k % 4 == 1 { &al_wide } else { &al };
+            let mut pv: Vec<f64> = { let mut c = cp; (0..size).map(|_| { let v = alx[c % alx.len()]; c /= alx.len(); v }).collect() };
+            let mut qv: Vec<f64> = { let mut c = cq; (0..size).map(|_| { let v = alx[c % alx.len()]; c /= alx.len(); v }).collect() };
             // NaN placements (sampled cases only)
             if !exhaustive && k % 9 == 4 { let i = rng.below(size); pv[i] = f64::NAN; }
             if !exhaustive && k % 9 == 7 { let i = rng.below(size); qv[i] = f64::NAN; }
